@@ -14,8 +14,10 @@ import (
 	"bytes"
 	"encoding/binary"
 	"fmt"
+	"os"
 	"sort"
 	"strings"
+	"sync"
 	"testing"
 	"unicode/utf8"
 
@@ -86,6 +88,30 @@ func cloneFields(a []field) []field {
 		}
 	}
 	return out
+}
+
+// sampled limits the rendered samples of one test to max, and to shard 0, so that the merged evidence
+// (first 8 samples over all tests and shards) shows every test instead of eight cases of the first one.
+var (
+	sampleMu    sync.Mutex
+	sampleCount = map[string]int{}
+)
+
+func sampled(test string, max int, f func() interface{}) func() interface{} {
+	if sh := os.Getenv("VERIF_SHARD"); sh != "" && sh != "0" {
+		return nil
+	}
+	sampleMu.Lock()
+	defer sampleMu.Unlock()
+	if sampleCount[test] >= max {
+		return nil
+	}
+	return func() interface{} {
+		sampleMu.Lock()
+		sampleCount[test]++
+		sampleMu.Unlock()
+		return f()
+	}
 }
 
 func clip(s string, n int) string {
